@@ -120,8 +120,18 @@ func (r *Rng) host() string {
 
 func (r *Rng) genIPv4() string {
 	n := 1 + r.Intn(5)
+	if r.Chance(1, 8) {
+		n = 5 + r.Intn(5) // more labels than any address has
+	}
 	var ps []string
 	for i := 0; i < n; i++ {
+		if r.Chance(1, 6) {
+			// signs, and values around every integer width a conversion routine may use
+			ps = append(ps, r.Pick([]string{"+1", "-1", "+0", "-0", "+127", "-10", "1+", "0x+f", "+0x1", "0x-1", "+",
+				"2147483647", "2147483648", "4294967296", "9223372036854775807", "9223372036854775808", "18446744073709551615", "18446744073709551616",
+				"0x7fffffffffffffff", "0x8000000000000000", "0xffffffff7f000001", "0xffffffffffffffff", "0x10000000000000000", "01777777777777777777777", "00000000000000000000001", "99999999999999999999999999"}))
+			continue
+		}
 		ps = append(ps, r.Pick([]string{"0", "1", "7", "8", "9", "10", "127", "255", "256", "0x0", "0x7F", "0xff", "0x100", "010", "0377", "0400", "08", "65535", "65536", "16777215", "16777216", "4294967295", "", "x", "0x", "00", "1a"}))
 	}
 	return strings.Join(ps, ".")
@@ -143,7 +153,17 @@ func (r *Rng) genIPv6() string {
 		if s != "" && !strings.HasSuffix(s, ":") {
 			s += ":"
 		}
-		s += r.Pick([]string{"1.2.3.4", "0.0.0.0", "255.255.255.255", "1.2.3", "1.2.3.4.5", "01.2.3.4", "256.1.1.1", "1.2.3.4.", "1..2.3"})
+		if r.Chance(1, 2) {
+			s += r.Pick([]string{"1.2.3.4", "0.0.0.0", "255.255.255.255", "1.2.3", "1.2.3.4.5", "01.2.3.4", "256.1.1.1", "1.2.3.4.", "1..2.3"})
+		} else {
+			// an embedded IPv4 tail of 1-6 parts, each from a pool with range, width and syntax boundaries
+			var qs []string
+			for k := 0; k < 1+r.Intn(6); k++ {
+				qs = append(qs, r.Pick([]string{"0", "1", "9", "10", "99", "100", "255", "256", "260", "999", "1000", "00", "01", "", "a", "1a", "+1",
+					"4294967296", "9223372036854775807", "9223372036854775808", "92233720368547758085", "18446744073709551616", "99999999999999999999999"}))
+			}
+			s += strings.Join(qs, ".")
+		}
 	}
 	return "[" + s + "]"
 }
@@ -185,7 +205,7 @@ func (r *Rng) path() string {
 	return sb.String()
 }
 
-var queryBits = []string{"q=hello%2520world", "a%2520b=1", "%25FF", "x=%2525fe", "%25C3%2528=1", "k=%25%2537E", "%%36%31=%%37E", "a=1", "b=2", "a=3", "q", "=", "=v", "k=", "a&b", "&&", "a=b=c", "x=%41", "x=1+1", "x=%2B", "x=%26", "n%3Dm=v", "é=ü", "%ff=1", "a b=c d", "a'b", "\"q\"", "<q>", "#", "?", "??", "a;b", "%", "%4", "%zz", "sp=%20", "\xff", "`", "{}", "|", "^", "\\", "[]", "Z=1", "z=1", "A=1", "\U0001F600=1", "\uE000=1"}
+var queryBits = []string{"a=%FF%FE", "%C3%28%A0%A1=x%80%80%80y", "\xff\xfe=\xc3\xc3", "k=%E2%82", "%F0%9F%98=%F0%9F", "q=hello%2520world", "a%2520b=1", "%25FF", "x=%2525fe", "%25C3%2528=1", "k=%25%2537E", "%%36%31=%%37E", "a=1", "b=2", "a=3", "q", "=", "=v", "k=", "a&b", "&&", "a=b=c", "x=%41", "x=1+1", "x=%2B", "x=%26", "n%3Dm=v", "é=ü", "%ff=1", "a b=c d", "a'b", "\"q\"", "<q>", "#", "?", "??", "a;b", "%", "%4", "%zz", "sp=%20", "\xff", "`", "{}", "|", "^", "\\", "[]", "Z=1", "z=1", "A=1", "\U0001F600=1", "\uE000=1"}
 
 func (r *Rng) query() string {
 	n := 1 + r.Intn(4)
